@@ -75,7 +75,7 @@ func checkC03(P *core.Program, R *core.Report) {
 			case "ideal":
 				av = E.ValAt(ctx, ret.Results[0], ret)
 				n++
-				ok := av.D == cl.want || av.D == core.DEq
+				ok := (av.D == cl.want || av.D == core.DEq) && !E.Exhausted
 				R.Add("C03-direction", cl.key, construct, P.Pos(P.InstrPos(ret)), ok,
 					fmt.Sprintf("computed relation real %s ideal (want %s); value %s. %s", av.D, cl.want, av, notes(E)))
 			case "ref":
@@ -90,7 +90,7 @@ func checkC03(P *core.Program, R *core.Report) {
 				n++
 				E.SetRef(ctx, ret.Results[cl.refIdx], ret)
 				av = E.ValAt(ctx, ret.Results[0], ret)
-				ok := av.HasF && (av.F == cl.want || av.F == core.DEq) && E.RefR.GE0()
+				ok := av.HasF && (av.F == cl.want || av.F == core.DEq) && E.RefR.GE0() && !E.Exhausted
 				R.Add("C03-direction", cl.key, construct, P.Pos(P.InstrPos(ret)), ok,
 					fmt.Sprintf("computed relation amount %s reference (want %s); reference range %s; value %s. %s", fOf(av), cl.want, E.RefR, av, notes(E)))
 			}
@@ -222,4 +222,40 @@ func keysOf(m map[string]bool) []string {
 	}
 	sort.Strings(ks)
 	return ks
+}
+
+// checkIdealDirection: result #idx of fn is ≤ (DLe) / ≥ (DGe) the same expression evaluated
+// exactly with the table's ideal parameter values (fees at zero), on every success return.
+func checkIdealDirection(P *core.Program, R *core.Report, rule, table, key string, idx int, want core.Dir, what string) {
+	spec, err := loadRangeSpec(table)
+	if err != nil {
+		R.Undecided(rule, "-", "tables/"+table, "-", err.Error())
+		return
+	}
+	fn := P.Fn(key)
+	if fn == nil {
+		R.Add(rule, key, "function", "-", false, "unresolved anchor")
+		return
+	}
+	ff := P.Facts(fn)
+	n := 0
+	for _, ex := range ff.Exits() {
+		ret, ok := ex.Instr.(*ssa.Return)
+		if !ok || ex.Kind == core.ExitError || idx >= len(ret.Results) {
+			continue
+		}
+		E := core.NewRanger(P, spec)
+		ctx := E.TopCtx(fn)
+		av := E.ValAt(ctx, ret.Results[idx], ret)
+		n++
+		okD := (av.D == want || av.D == core.DEq) && !E.Exhausted
+		R.Add(rule, key, what, P.Pos(P.InstrPos(ret)), okD,
+			fmt.Sprintf("computed relation real %s ideal (want %s); value %s. %s", av.D, want, av, notes(E)))
+		for u := range E.Used {
+			R.Assume("range assumption used: " + u)
+		}
+	}
+	if n == 0 {
+		R.Add(rule, key, what, P.Pos(fn.Pos()), false, "no success return found (anchor changed)")
+	}
 }
